@@ -72,3 +72,33 @@ Theorem C06_code_result_fields : forall (V : Type) (vint : Z -> V) (as_int : V -
     oracle log "cluster_metrics.bayesian_information_criterion"%string [state] = Ret bic.
 Proof. exact result_assembly. Qed.
 Print Assumptions C06_code_result_fields.
+
+(* ---- the RESULT ASSEMBLY's control skeleton INTERPRETED by the accounting model (Proofs/InterpResult.v; any carrier, any median): as
+   translated, the assembly builds a result whose per-point list is the flattened per-cluster lists of the final state - a permutation of
+   the per-point values, exactly one per point -, whose overall sum / mean / median are taken of THAT list, whose per-cluster mean / median
+   are taken over exactly the points labelled with the cluster (zero for a cluster without points), whose labels are a copy of the final
+   state's labels and whose cost is the final state's cost.  Property C06's accounting clauses for the code's own composition. ---- *)
+From Coq Require Import Permutation.
+From Ticc Require Import Model.Accounting Model.Repop Proofs.InterpResult.
+Theorem C06_code_result_fields_consistent : forall (A : Type) (zero : A) (add div : A -> A -> A) (of_nat : nat -> A) (median : list A -> A)
+    (Mrf : Type) (K W : nat) (labels : list nat) (cost : A) (mrfs : list Mrf) (value : nat -> A) (bic chi : A) (T : nat),
+  T = length labels -> Forall (fun c : nat => (c < K)%nat) labels ->
+  exists (r : result_data A Mrf) (log' : list (event (InterpResult.val A Mrf))),
+    g_fit_stacked_data_result (InterpResult.val A Mrf) (InterpResult.VInt A Mrf) (InterpResult.as_int A Mrf)
+      (InterpResult.getattr A Mrf K W labels cost)
+      (InterpResult.oracle_model A zero add div of_nat median Mrf K labels mrfs value bic chi)
+      (VState A Mrf) (VData A Mrf T) (InterpResult.VInt A Mrf (Z.of_nat T)) nil
+    = (Ret (InterpResult.VResult A Mrf r), log') /\
+    Permutation (r_all A Mrf r) (map value (seq 0 T)) /\ length (r_all A Mrf r) = T /\
+    r_overall A Mrf r = Accounting.sum zero add (r_all A Mrf r) /\
+    r_overall_mean A Mrf r = Accounting.mean zero add div of_nat (r_all A Mrf r) /\
+    r_overall_median A Mrf r = median (r_all A Mrf r) /\
+    length (r_cluster_mean A Mrf r) = K /\
+    (forall k : nat, (k < K)%nat ->
+       nth k (r_cluster_mean A Mrf r) zero = agg0 zero (Accounting.mean zero add div of_nat) (map value (members labels k)) /\
+       nth k (r_cluster_median A Mrf r) zero = agg0 zero median (map value (members labels k))) /\
+    (forall k : nat, (k < K)%nat -> members labels k = nil ->
+       nth k (r_cluster_mean A Mrf r) zero = zero /\ nth k (r_cluster_median A Mrf r) zero = zero) /\
+    r_labels A Mrf r = map Z.of_nat labels /\ length (r_labels A Mrf r) = T /\ r_cost A Mrf r = cost.
+Proof. exact result_fields_consistent. Qed.
+Print Assumptions C06_code_result_fields_consistent.
